@@ -6,6 +6,7 @@ import (
 	"strings"
 
 	"github.com/goghcrow/yae"
+	"github.com/goghcrow/yae/val"
 
 	"verif/mc/engine"
 	"verif/mc/gen"
@@ -24,7 +25,7 @@ func (c07) ID() string { return "C07" }
 func (c07) Meta(tier string) engine.Meta {
 	return engine.Meta{
 		Level: "model_checking",
-		Rule: "all pairs (compile-time binding of x, run-time binding of x) over 19 values of 15 types (scalars, lists, maps, objects in both field orders, empty object, optionals present / absent) plus the run-time mutations {x missing, y missing, extra name z, y of another type}, × 7 representation pairs (raw→raw, map→map, struct→struct, map→struct, struct→map, raw→map, map→raw), × 6 programs containing tracers, × map-iteration seeds 1..8; plus every history of <= 3 invocations of one Callable drawn from {matching, matching with other values, type mismatch, missing name, same Go type with a nil pointer where the sample had a value}. Oracle: accepted iff every compile-time name is present with a structurally equal type (fields by name); on rejection: an error, an EMPTY host-call trace and no panic; on acceptance: value and trace equal the reference evaluator's; each invocation's outcome is independent of the history before it. non-trivial = every case",
+		Rule: "all pairs (compile-time binding of x, run-time binding of x) over 19 values of 15 types (scalars, lists, maps, objects in both field orders, empty object, optionals present / absent) plus the run-time mutations {x missing, y missing, extra name z, y of another type}, × 7 representation pairs (raw→raw, map→map, struct→struct, map→struct, struct→map, raw→map, map→raw), × 6 programs containing tracers, × map-iteration seeds 1..8; plus every history of <= 3 invocations of one Callable drawn from {matching, matching with other values, type mismatch, missing name, same Go type with a nil pointer where the sample had a value}, for raw / map / struct environments and for ONE raw environment object rebound in place between invocations. plus 13 run-time values of the sample's Go type whose nested elements differ in type (maps of slices, slices of maps, struct fields ...) x 4 back ends x map seeds 1..8, each between two good calls. Oracle: accepted iff every compile-time name is present with a structurally equal type (fields by name); on rejection: an error, an EMPTY host-call trace and no panic; on acceptance: value and trace equal the reference evaluator's; each invocation's outcome is independent of the history before it. non-trivial = every case",
 		Bound: "two names; histories of length <= 3",
 		Assumptions: []string{"the type of a host value is what the reference derives from its description (C15 checks that conversion agrees)"},
 	}
@@ -111,6 +112,11 @@ func (c07) Generate(tier string, yield func(*engine.Case) bool) {
 			}
 		}
 	}
+	c07BadCases(func(c *engine.Case) {
+		if ok && !yield(c) {
+			ok = false
+		}
+	})
 	// histories
 	var hists [][]int
 	var rec func(h []int)
@@ -126,9 +132,12 @@ func (c07) Generate(tier string, yield func(*engine.Case) bool) {
 		}
 	}
 	rec(nil)
-	for _, rep := range []string{"raw", "map", "struct", "ptr"} {
+	for _, rep := range []string{"raw", "map", "struct", "ptr", "rawmut"} {
 		for pi := 0; pi < 3; pi++ {
 			for _, h := range hists {
+				if rep == "rawmut" && strings.Contains(fmt.Sprint(h), "3") {
+					continue // a name cannot be removed from an environment object
+				}
 				hs := make([]string, len(h))
 				for i, v := range h {
 					hs[i] = fmt.Sprint(v)
@@ -221,6 +230,9 @@ func describeVal(o *real.Obs) string {
 
 func (c07) Run(c *engine.Case) *engine.Result {
 	res := &engine.Result{NonTrivial: true}
+	if len(c.Args) > 0 && c.Args[0] == "bad" {
+		return runC07Bad(c)
+	}
 	if len(c.Args) > 0 && c.Args[0] == "hist" {
 		return c07History(c)
 	}
@@ -267,6 +279,9 @@ func c07History(c *engine.Case) *engine.Result {
 	variants := func(v int) (real.EnvSpec, interface{}) {
 		mk := func(r string, b ...real.Binding) real.EnvSpec { return real.EnvSpec{Rep: r, Binds: b} }
 		r := rep
+		if rep == "rawmut" {
+			r = "raw"
+		}
 		if rep == "ptr" {
 			// hand-written Go type whose pointer field is present in the compile-time sample
 			switch v {
@@ -324,11 +339,21 @@ func c07History(c *engine.Case) *engine.Result {
 	// environments are built once per variant and reused when a variant repeats in the history
 	args := map[int]interface{}{}
 	var outs []string
+	var shared *val.Env // rawmut: ONE environment object, rebound in place between invocations
 	for step, vs := range c.Args[3:] {
 		var v int
 		fmt.Sscan(vs, &v)
 		spec, host := variants(v)
 		arg, seen := args[v]
+		if rep == "rawmut" {
+			if shared == nil {
+				shared = cspec.RawValEnv()
+			}
+			for _, b := range spec.Binds {
+				shared.Put(b.Name, real.ToVal(b.V))
+			}
+			arg, seen = shared, true
+		}
 		if !seen {
 			arg = host
 			if arg == nil {
